@@ -797,7 +797,7 @@ Section Interp.
             match cerr c2 with
             | Some e => Out c2 w (Some e)
             | None =>
-              let empty := is_nil v2 in
+              let empty := is_void v2 in
               let c3 := match ok with [] => c2 | _ => ctx_set_static ok (VBool (negb empty)) c2 end in
               if empty then Out c3 w None
               else
